@@ -2,8 +2,9 @@
    specification, and its preservation by the heap primitives.
 
    InvG nv s a x extra:
-   - every variable u < nv other than x is null and abstractly empty, or points to live
-     storage whose buffer is  (a u) ++ 0 :: rest  with len = |a u|  (vgood);
+   - every variable u < nv other than x is null, abstractly empty and not flagged "has
+     storage", or points to live storage whose buffer is  (a u) ++ 0 :: rest  with
+     len = |a u| and alloced = the size of the buffer  (vgood; the text may hold 0 bytes);
    - for every live storage, refcount + 1 = the number of variables (other than x) that
      point to it + the number of occurrences in [extra] (pointers held by the operation in
      progress: the variable x being modified, and locals such as olddata / newdata);
@@ -14,13 +15,13 @@ From Morfuse Require Import Base.Arr C18str.Model C18str.Spec C18str.ProofsLib.
 Import ListNotations.
 
 Definition content (d : sdata) (l : list N) : Prop :=
-  exists rest, buf d = l ++ 0%N :: rest /\ nz l /\ alloced d <= length (buf d).
+  exists rest, buf d = l ++ 0%N :: rest /\ alloced d = length (buf d).
 
 Definition good (d : sdata) (l : list N) : Prop := content d l /\ dlen d = length l.
 
-Definition vgood (s : st) (p : option N) (l : list N) : Prop :=
+Definition vgood (s : st) (p : option N) (l : list N) (b : bool) : Prop :=
   match p with
-  | None => l = []
+  | None => l = [] /\ b = false
   | Some id => exists d, get (heap s) id = Some d /\ good d l
   end.
 
@@ -44,34 +45,30 @@ Fixpoint occ (extra : list N) (id : N) : nat :=
 
 Definition olist (p : option N) : list N := match p with Some i => [i] | None => [] end.
 
-Record InvG (nv : nat) (s : st) (a : abs) (x : option N) (extra : list N) : Prop := mkInvG {
+Record InvG (nv : nat) (s : st) (a : abs) (h : has) (x : option N) (extra : list N) : Prop := mkInvG {
   g_vars : forall u, (u < N.of_nat nv)%N -> excluded x u = false ->
-                     vgood s (get (vars s) u) (get a u);
+                     vgood s (get (vars s) u) (get a u) (get h u);
   g_cnt : forall id d, get (heap s) id = Some d ->
                        S (refc d) = countX nv (vars s) x id + occ extra id;
   g_fresh : forall id, (nxt s <= id)%N -> get (heap s) id = None;
   g_live : forall id, In id extra -> get (heap s) id <> None }.
 
-Definition Inv (nv : nat) (s : st) (a : abs) : Prop := InvG nv s a None [].
+Definition Inv (nv : nat) (s : st) (a : abs) (h : has) : Prop := InvG nv s a h None [].
 
 (* ---- good / vgood ---------------------------------------------------------------------- *)
 
-Lemma good_text d l : good d l -> cstr (buf d) = Some l.
-Proof. intros [[rest [Hb [Hn _]]] _]. rewrite Hb. now apply cstr_app. Qed.
+Lemma good_text d l : good d l -> cstr (buf d) = Some (clit l).
+Proof. intros [[rest [Hb _]] _]. rewrite Hb. apply cstr_clit. Qed.
 
 Lemma good_unique d l1 l2 : good d l1 -> good d l2 -> l1 = l2.
 Proof.
-  intros H1 H2. apply good_text in H1. apply good_text in H2. congruence.
+  intros [[r1 [H1 _]] L1] [[r2 [H2 _]] L2]. rewrite H1 in H2.
+  eapply app_inv_len; [exact H2|congruence].
 Qed.
 
-Lemma good_nz d l : good d l -> nz l.
-Proof. intros [[rest [_ [Hn _]]] _]. exact Hn. Qed.
-
-Lemma vgood_nz s p l : vgood s p l -> nz l.
+Lemma good_room d l : good d l -> length l < alloced d.
 Proof.
-  destruct p as [id|]; cbn.
-  - intros [d [_ H]]. eapply good_nz; eauto.
-  - intros ->. apply nz_nil.
+  intros [[rest [Hb Ha]] _]. rewrite Ha, Hb, app_length. cbn. lia.
 Qed.
 
 Definition same_text (d d' : sdata) : Prop :=
@@ -79,20 +76,20 @@ Definition same_text (d d' : sdata) : Prop :=
 
 Lemma good_same d d' l : same_text d d' -> good d l -> good d' l.
 Proof.
-  intros [Ha [Hl Hb]] [[rest [H1 [H2 H3]]] H4]. split.
+  intros [Ha [Hl Hb]] [[rest [H1 H3]] H4]. split.
   - exists rest. rewrite Hb, Ha. auto.
   - congruence.
 Qed.
 
-Lemma vgood_frame s s' p l :
-  (forall id, p = Some id -> get (heap s') id = get (heap s) id) -> vgood s p l -> vgood s' p l.
+Lemma vgood_frame s s' p l b :
+  (forall id, p = Some id -> get (heap s') id = get (heap s) id) -> vgood s p l b -> vgood s' p l b.
 Proof.
   destruct p as [id|]; cbn; [|auto].
   intros H [d [Hd Hg]]. exists d. split; [|exact Hg]. rewrite H; auto.
 Qed.
 
-Lemma vgood_upd s id d d' p l :
-  get (heap s) id = Some d -> same_text d d' -> vgood s p l -> vgood (upd s id d') p l.
+Lemma vgood_upd s id d d' p l b :
+  get (heap s) id = Some d -> same_text d d' -> vgood s p l b -> vgood (upd s id d') p l b.
 Proof.
   intros Hd Hs. destruct p as [j|]; cbn; [|auto].
   intros [e [He Hg]]. rewrite get_set. destruct (N.eqb_spec j id) as [->|Hne].
@@ -173,26 +170,27 @@ Qed.
 
 (* ---- the primitives -------------------------------------------------------------------- *)
 
-Lemma InvG_ext nv s a a' x e :
-  (forall u, get a' u = get a u) -> InvG nv s a x e -> InvG nv s a' x e.
+Lemma InvG_ext nv s a a' h h' x e :
+  (forall u, get a' u = get a u) -> (forall u, get h' u = get h u) ->
+  InvG nv s a h x e -> InvG nv s a' h' x e.
 Proof.
-  intros Hext [H1 H2 H3 H4]. constructor; auto.
-  intros u Hu Hx. rewrite Hext. auto.
+  intros Hext Hext' [H1 H2 H3 H4]. constructor; auto.
+  intros u Hu Hx. rewrite Hext, Hext'. auto.
 Qed.
 
-Lemma InvG_perm nv s a x e e' : Permutation e e' -> InvG nv s a x e -> InvG nv s a x e'.
+Lemma InvG_perm nv s a h x e e' : Permutation e e' -> InvG nv s a h x e -> InvG nv s a h x e'.
 Proof.
   intros Hp [H1 H2 H3 H4]. constructor; auto.
   - intros id d Hd. rewrite <- (occ_perm e e' id Hp). auto.
   - intros id Hin. apply H4. eapply Permutation_in; [apply Permutation_sym; exact Hp|exact Hin].
 Qed.
 
-Lemma P_open nv s a v :
-  Inv nv s a -> (v < N.of_nat nv)%N ->
-  InvG nv s a (Some v) (olist (get (vars s) v)) /\ vgood s (get (vars s) v) (get a v).
+Lemma P_open nv s a h v :
+  Inv nv s a h -> (v < N.of_nat nv)%N ->
+  InvG nv s a h (Some v) (olist (get (vars s) v)) /\ vgood s (get (vars s) v) (get a v) (get h v).
 Proof.
   intros [H1 H2 H3 H4] Hv.
-  assert (Hg : vgood s (get (vars s) v) (get a v)) by (apply H1; auto).
+  assert (Hg : vgood s (get (vars s) v) (get a v) (get h v)) by (apply H1; auto).
   split; [|exact Hg]. constructor.
   - intros u Hu _. apply H1; auto.
   - intros id d Hd. rewrite (H2 id d Hd). cbn [occ]. rewrite occ_olist.
@@ -202,12 +200,12 @@ Proof.
     destruct Hin as [<-|[]]. cbn in Hg. destruct Hg as [d [Hd _]]. congruence.
 Qed.
 
-Lemma P_close nv s a v l :
-  InvG nv s a (Some v) (olist (get (vars s) v)) -> (v < N.of_nat nv)%N ->
-  vgood s (get (vars s) v) l -> Inv nv s (set a v l).
+Lemma P_close nv s a h v l b :
+  InvG nv s a h (Some v) (olist (get (vars s) v)) -> (v < N.of_nat nv)%N ->
+  vgood s (get (vars s) v) l b -> Inv nv s (set a v l) (set h v b).
 Proof.
   intros [H1 H2 H3 H4] Hv Hg. constructor.
-  - intros u Hu _. rewrite get_set. destruct (N.eqb_spec u v) as [->|Hne]; [exact Hg|].
+  - intros u Hu _. rewrite !get_set. destruct (N.eqb_spec u v) as [->|Hne]; [exact Hg|].
     apply H1; [exact Hu|]. cbn. destruct (N.eqb_spec v u); congruence.
   - intros id d Hd. rewrite (H2 id d Hd). rewrite occ_olist. cbn [occ].
     rewrite (countX_open nv (vars s) v id Hv). lia.
@@ -215,8 +213,8 @@ Proof.
   - intros id [].
 Qed.
 
-Lemma P_setvar nv s a v p extra :
-  InvG nv s a (Some v) extra -> InvG nv (set_var s v p) a (Some v) extra.
+Lemma P_setvar nv s a h v p extra :
+  InvG nv s a h (Some v) extra -> InvG nv (set_var s v p) a h (Some v) extra.
 Proof.
   intros [H1 H2 H3 H4]. constructor; cbn [set_var heap vars nxt]; auto.
   - intros u Hu Hx. cbn in Hx. rewrite gso.
@@ -225,10 +223,10 @@ Proof.
   - intros id d Hd. rewrite countX_set_x. auto.
 Qed.
 
-Lemma P_addref nv s a x extra id d :
-  InvG nv s a x extra -> get (heap s) id = Some d ->
+Lemma P_addref nv s a h x extra id d :
+  InvG nv s a h x extra -> get (heap s) id = Some d ->
   add_ref s id = Ok (upd s id (mkD (S (refc d)) (alloced d) (dlen d) (buf d))) /\
-  InvG nv (upd s id (mkD (S (refc d)) (alloced d) (dlen d) (buf d))) a x (id :: extra).
+  InvG nv (upd s id (mkD (S (refc d)) (alloced d) (dlen d) (buf d))) a h x (id :: extra).
 Proof.
   intros [H1 H2 H3 H4] Hd. split.
   - unfold add_ref, deref. rewrite Hd. reflexivity.
@@ -244,12 +242,13 @@ Proof.
       apply H4. destruct Hin as [E|Hin]; [congruence|exact Hin].
 Qed.
 
-Lemma P_delref nv s a x extra id :
-  InvG nv s a x (id :: extra) ->
-  exists s' d, get (heap s) id = Some d /\ del_ref s id = Ok s' /\ InvG nv s' a x extra /\
+Lemma P_delref nv s a h x extra id :
+  InvG nv s a h x (id :: extra) ->
+  exists s' d, get (heap s) id = Some d /\ del_ref s id = Ok s' /\ InvG nv s' a h x extra /\
     vars s' = vars s /\ nxt s' = nxt s /\
     (forall j, j <> id -> get (heap s') j = get (heap s) j) /\
-    (forall p l, vgood s p l -> (p = Some id -> refc d <> 0) -> vgood s' p l).
+    (forall p l b, vgood s p l b -> (p = Some id -> refc d <> 0) -> vgood s' p l b) /\
+    (refc d <> 0 -> exists d', get (heap s') id = Some d' /\ same_text d d').
 Proof.
   intros [H1 H2 H3 H4].
   destruct (get (heap s) id) as [d|] eqn:Hd; [|exfalso; apply (H4 id); [now left|exact Hd]].
@@ -262,7 +261,7 @@ Proof.
     eexists. exists d. split; [reflexivity|]. split; [reflexivity|].
     assert (Hfr : forall j, j <> id -> get (set (heap s) id None) j = get (heap s) j)
       by (intros j Hj; now rewrite gso).
-    split; [|split; [reflexivity|split; [reflexivity|split; [exact Hfr|]]]].
+    split; [|split; [reflexivity|split; [reflexivity|split; [exact Hfr|split; [|intro Hc0; congruence]]]]].
     + constructor; cbn [heap vars nxt].
       * intros u Hu Hx. apply (vgood_frame s); [|apply H1; auto].
         intros j E. apply Hfr. intro Ej. subst j.
@@ -274,11 +273,11 @@ Proof.
       * intros j Hin. rewrite get_set. destruct (N.eqb_spec j id) as [->|Hne].
         -- exfalso. apply (occ_zero_notin extra id Ho). exact Hin.
         -- apply H4. now right.
-    + intros p l Hg Hp. apply (vgood_frame s); [|exact Hg].
+    + intros p l b Hg Hp. apply (vgood_frame s); [|exact Hg].
       intros j E. apply Hfr. intro Ej. subst j. now apply Hp.
   - (* one owner less *)
     eexists. exists d. split; [reflexivity|]. split; [reflexivity|].
-    split; [|split; [reflexivity|split; [reflexivity|split]]].
+    split; [|split; [reflexivity|split; [reflexivity|split; [|split]]]].
     + constructor; cbn [upd heap vars nxt].
       * intros u Hu Hx. apply vgood_upd with (d := d); [exact Hd|repeat split|]. apply H1; auto.
       * intros j e. rewrite get_set. destruct (N.eqb_spec j id) as [->|Hne].
@@ -289,20 +288,21 @@ Proof.
       * intros j Hin. rewrite get_set. destruct (N.eqb_spec j id) as [->|Hne]; [discriminate|].
         apply H4. now right.
     + intros j Hj. cbn [upd heap]. now rewrite gso.
-    + intros p l Hg _. apply vgood_upd with (d := d); [exact Hd|repeat split|exact Hg].
+    + intros p l b Hg _. apply vgood_upd with (d := d); [exact Hd|repeat split|exact Hg].
+    + intros _. eexists. cbn [upd heap]. rewrite gss. split; [reflexivity|repeat split].
 Qed.
 
-Lemma vgood_new s d p l :
-  get (heap s) (nxt s) = None -> vgood s p l -> vgood (new_data s d) p l.
+Lemma vgood_new s d p l b :
+  get (heap s) (nxt s) = None -> vgood s p l b -> vgood (new_data s d) p l b.
 Proof.
   intros Hf Hg. apply (vgood_frame s); [|exact Hg].
   intros j E. subst p. cbn [new_data heap]. rewrite gso; [reflexivity|].
   intro Ej. subst j. cbn in Hg. destruct Hg as [e [He _]]. congruence.
 Qed.
 
-Lemma P_new nv s a x extra d :
-  InvG nv s a x extra -> refc d = 0 ->
-  InvG nv (new_data s d) a x (nxt s :: extra).
+Lemma P_new nv s a h x extra d :
+  InvG nv s a h x extra -> refc d = 0 ->
+  InvG nv (new_data s d) a h x (nxt s :: extra).
 Proof.
   intros [H1 H2 H3 H4] Hr.
   assert (Hf : get (heap s) (nxt s) = None) by (apply H3; lia).
@@ -322,9 +322,9 @@ Proof.
     apply H4. destruct Hin as [E|Hin]; [congruence|exact Hin].
 Qed.
 
-Lemma P_upd nv s a x extra id d d' :
-  InvG nv s a x extra -> get (heap s) id = Some d -> refc d = 0 -> In id extra -> refc d' = 0 ->
-  InvG nv (upd s id d') a x extra.
+Lemma P_upd nv s a h x extra id d d' :
+  InvG nv s a h x extra -> get (heap s) id = Some d -> refc d = 0 -> In id extra -> refc d' = 0 ->
+  InvG nv (upd s id d') a h x extra.
 Proof.
   intros [H1 H2 H3 H4] Hd Hr Hin Hr'.
   pose proof (H2 id d Hd) as Hc. pose proof (occ_in_pos extra id Hin) as Ho.
@@ -344,8 +344,8 @@ Qed.
 
 (* a variable other than the one being modified does not point to storage that the
    operation owns exclusively *)
-Lemma sole_owner nv s a x extra id d u :
-  InvG nv s a x extra -> get (heap s) id = Some d -> refc d = 0 -> In id extra ->
+Lemma sole_owner nv s a h x extra id d u :
+  InvG nv s a h x extra -> get (heap s) id = Some d -> refc d = 0 -> In id extra ->
   (u < N.of_nat nv)%N -> excluded x u = false -> get (vars s) u <> Some id.
 Proof.
   intros [H1 H2 H3 H4] Hd Hr Hin Hu Hx.
@@ -355,11 +355,11 @@ Proof.
 Qed.
 
 (* closing an operation on v whose storage it owns exclusively *)
-Lemma P_finish nv s a v id d d' l :
-  InvG nv s a (Some v) [id] -> (v < N.of_nat nv)%N ->
+Lemma P_finish nv s a h v id d d' l b :
+  InvG nv s a h (Some v) [id] -> (v < N.of_nat nv)%N ->
   get (vars s) v = Some id -> get (heap s) id = Some d -> refc d = 0 ->
   good d' l -> refc d' = 0 ->
-  Inv nv (upd s id d') (set a v l).
+  Inv nv (upd s id d') (set a v l) (set h v b).
 Proof.
   intros HG Hv Hp Hd Hr Hg Hr'.
   apply P_close; [|exact Hv|].
@@ -367,10 +367,10 @@ Proof.
   - cbn [upd vars]. rewrite Hp. cbn [vgood upd heap]. exists d'. rewrite gss. auto.
 Qed.
 
-Lemma Inv_init nv : Inv nv init abs_init.
+Lemma Inv_init nv : Inv nv init abs_init has_init.
 Proof.
   constructor; cbn [init heap vars nxt].
-  - intros u _ _. rewrite get_empty. cbn. unfold abs_init. now rewrite get_empty.
+  - intros u _ _. rewrite get_empty. cbn. unfold abs_init, has_init. now rewrite !get_empty.
   - intros id d. rewrite get_empty. discriminate.
   - intros id _. now rewrite get_empty.
   - intros id [].
